@@ -105,7 +105,16 @@ def malform(rng, fmt, text, p):
             idx = len(lines) - 3
         if idx < 1:
             return None
-        kind = rng.choice(["garbage", "truncate", "badtoken"])
+        kind = rng.choice(["garbage", "truncate", "badtoken", "no_close_bracket", "no_close_brace", "no_close_bracket_nl"])
+        if kind in ("no_close_bracket", "no_close_bracket_nl"):
+            # the document stops where only the closing bracket of the list is missing (a writer that was killed)
+            t = text.rstrip()
+            return (t[:-1].rstrip() + ("\n" if kind.endswith("_nl") else "")) if t.endswith("]") else None
+        if kind == "no_close_brace":
+            t = text.rstrip()
+            if t.endswith("]"):
+                t = t[:-1].rstrip()
+            return t[:-1] if t.endswith("}") else None
         if kind == "garbage":
             lines[idx] = lines[idx].replace("{", "{ xyz ", 1)
         elif kind == "badtoken":
@@ -119,6 +128,10 @@ def malform(rng, fmt, text, p):
         idx = min(p, len(lines) - 2)
         if idx < 0:
             return None
+        if rng.chance(0.25):
+            # the last object lacks only its closing brace
+            t = text.rstrip()
+            return t[:-1] + rng.choice(["", "\n"]) if t.endswith("}") else None
         lines[idx] = lines[idx].replace("{", "{ xyz ", 1) if rng.chance(0.5) else lines[idx][:len(lines[idx]) // 2]
         return "\n".join(lines)
     return None
@@ -143,6 +156,29 @@ DSL_FAIL = [
     ("func f() { int y = \"abc\"; return y } NR == %d { $c = f() }", "put", "direct"),
     ("func g() { return 1 } func f() { if (\"notbool\") { return 2 } return g() } NR == %d { $c = f() }", "put", "direct"),
 ]
+# statements that fail when executed, and the block structures they may sit in: the failure must come out of any nesting
+FAILING_STMTS = ["int y = \"abc\"", "if (\"notbool\") { $q = 1 }", "tee > \"/nonexistent-dir/x\", $*", "print > \"/nonexistent-dir/y\", \"hi\"", "$* = 3",
+                 "emit > \"/nonexistent-dir/z\", {\"a\": 1}", "dump > \"/nonexistent-dir/w\", {\"a\": 1}", "$c = asserting_int(\"x\")", "num z = \"abc\"",
+                 "func_fails_here = asserting_null(1)" if False else "@v = asserting_null(1)", "ENV[1] = 2" if False else "str s = 1"]
+FAILING_STMTS_NO_RECORD = [x for x in FAILING_STMTS if "$" not in x]
+BLOCKS = ["%s", "for (k, v in {\"a\": 1, \"b\": 2}) { %s }", "for ((k1, k2), v in {\"a\": {\"b\": 1}}) { %s }", "for ((k1, k2, k3), v in {\"a\": {\"b\": {\"c\": 1}}}) { %s }",
+          "for (e in [1, 2]) { %s }", "for (k in {\"a\": 1}) { %s }", "for (int i = 0; i < 2; i += 1) { %s }", "var n = 0; while (n < 2) { n += 1; %s }",
+          "var n = 0; do { n += 1; %s } while (n < 2)", "if (true) { %s }", "if (false) { } elif (true) { %s }", "if (false) { } else { %s }",
+          "for (k, v in {\"a\": 1}) { if (true) { %s } }", "for ((k1, k2), v in {\"a\": {\"b\": 1}}) { for (e in [1]) { %s } }", "if (true) { for ((k1, k2), v in {\"a\": {\"b\": 1}}) { %s } }",
+          "call fails()", "for (e in [1]) { call fails() }", "var r = ffails()", "for ((k1, k2), v in {\"a\": {\"b\": 1}}) { var r = ffails() }"]
+
+
+def nested_failure(r, no_record=False):
+    """(prefix of definitions, statement) - a failing statement inside some block structure."""
+    stmt = r.choice(FAILING_STMTS_NO_RECORD if no_record else FAILING_STMTS)
+    blk = r.choice(BLOCKS)
+    if "call fails()" in blk:
+        return "subr fails() { %s } " % stmt, blk
+    if "ffails()" in blk:
+        return "func ffails() { %s; return 1 } " % stmt, blk
+    return "", blk % stmt
+
+
 DSL_FAIL_END = [
     ("end { int y = \"abc\" }", "put"),
     ("end { $c = asserting_int(\"x\") }", "put"),
@@ -157,7 +193,7 @@ NEUTRAL = [["cat"], ["cat", "-n"], ["put", "$k = NR"], ["sort", "-f", "a"], ["ta
 def case_stream(rng, tier):
     i = 0
     kinds = ["missing", "open_err", "read_err", "isdir", "malformed", "malformed", "dsl", "dsl", "dsl_end", "out_schema", "out_x",
-             "stdout_write", "stdout_write", "gz_trunc", "join_left", "first_record_early_exit", "target_open", "target_write",
+             "stdout_write", "stdout_write", "gz_trunc", "gz_garbage", "join_left", "first_record_early_exit", "target_open", "target_write",
              "target_write", "target_close", "split_write", "redirect_write", "pipe_early_exit", "not_fired", "target_schema", "evicted_target_write", "two_missing", "multi_redirect_close", "prepipe_fail", "join_left", "prepipe_fail", "multi_redirect_close", "join_left", "dsl_parse"]
     import os
     if os.environ.get("VERIF_KINDS"):  # debugging aid: restrict the fault kinds
@@ -175,7 +211,7 @@ NAMED_ONLY = ("dsl_parse", "multi_redirect_close", "evicted_target_write", "dsl"
 
 
 def build_case(r, kind, tier):
-    fmt = r.choice(["dkvp", "csv", "json", "tsv", "jsonl", "csvlite", "nidx"])
+    fmt = r.choice(["dkvp", "csv", "json", "tsv", "jsonl", "csvlite", "nidx", "xtab"])
     if kind in NAMED_ONLY and fmt == "nidx":
         fmt = "dkvp"  # these programs refer to fields by name
     batch = r.choice([1, 2, 3, 5, 500])
@@ -234,10 +270,29 @@ def build_case(r, kind, tier):
         names[j] = "in%d.%s.gz" % (j, fmt)
         files[names[j]] = z[:cut].decode("latin1")
         case["gz"] = True
+    elif kind == "gz_garbage":
+        # a complete gzip member followed by something that is not one: text, or a further member with a damaged header
+        # and good data behind it (zero padding, which gzip(1) tolerates, is not used)
+        raw = files[names[j]].encode()
+        cut = raw.rfind(b"\n", 0, max(1, len(raw) // 2)) + 1
+        first = gzip.compress(raw[:cut] if 0 < cut < len(raw) else raw, mtime=0)
+        rest = gzip.compress(raw[cut:] if 0 < cut < len(raw) else raw, mtime=0)
+        tail = r.choice([b"trailing text\n", b"\x00\x01garbage", b"\x1f\x8c" + rest[2:], b"\x1e\x8b" + rest[2:], rest[:3] + b"\xff" + rest[4:] + rest, b"x"])
+        del files[names[j]]
+        if nfiles > 1 or r.chance(0.5):
+            names[j] = "in%d.%s.gz" % (j, fmt)
+        else:
+            names[j] = "in%d.bin" % j
+            case["main_flags"] = ["--gzin"]
+        files[names[j]] = (first + tail).decode("latin1")
+        case["gz"] = True
     elif kind in ("dsl", "dsl_end"):
         q = r.below(len(verbs) + 1)
         if kind == "dsl":
             prog, verb, dk = r.choice(DSL_FAIL)
+            if r.chance(0.5):
+                defs, body = nested_failure(r)
+                prog, verb, dk = defs + "NR == %d { " + body.replace("%", "%%") + " }", "put", "either"
             # NR counts across files: the failing record is record p of file j
             nr = sum(len(x) for x in recs_by_file[:j]) + p + 1
             # upstream verbs must be 1:1 streaming for NR to mean input position; simplest: put the failing verb first,
@@ -248,6 +303,9 @@ def build_case(r, kind, tier):
             case["dsl_kind"] = dk
         else:
             prog, verb = r.choice(DSL_FAIL_END)
+            if r.chance(0.5):
+                defs, body = nested_failure(r, no_record=True)
+                prog = defs + r.choice(["end", "end", "begin"]) + " { " + body + " }"
             verbs.insert(q, [verb, prog])
         case["fail_pos"] = q
     elif kind == "dsl_parse":
